@@ -98,7 +98,7 @@ pub fn check_final(case: &C04Case, tr: &Trace) -> Result<Vec<&'static str>, Fail
             };
             // (at the receiver: while the transaction that delivered the file is still open; a straggler arriving after its
             // end starts a new transaction, which is C11's subject)
-            if r.t >= t0 && (e != p.to || r.t <= t_end) && matches!(c, Condition::FileChecksumFailure | Condition::FilesizeError) {
+            if r.t >= t0 && (e != p.to || r.t < t_end || r.t == t0) && matches!(c, Condition::FileChecksumFailure | Condition::FilesizeError) {
                 return Err(fail(
                     tr,
                     &format!("integrity-fault-after-success:{c:?}:{}", if e == p.to { "receiver" } else { "sender" }),
@@ -110,7 +110,8 @@ pub fn check_final(case: &C04Case, tr: &Trace) -> Result<Vec<&'static str>, Fail
     let mut first_resp: Option<Vec<FileStoreResponse>> = None;
     for d in tr.emitted(p.to, p.from) {
         if let Some(PDUPayload::Directive(Operations::Finished(f))) = d.pdu.as_ref().map(|x| &x.payload) {
-            if d.t < t0 || d.t > t_end {
+            // (strictly before the end: in the millisecond in which the transaction ends a straggler may already have started the next one)
+            if d.t < t0 || d.t >= t_end {
                 continue;
             }
             if matches!(f.condition, Condition::FileChecksumFailure | Condition::FilesizeError) {
@@ -128,7 +129,7 @@ pub fn check_final(case: &C04Case, tr: &Trace) -> Result<Vec<&'static str>, Fail
         }
     }
     // success indications after the first must not differ either (a second finalisation shows up here)
-    let succ: Vec<_> = r_fin.iter().filter(|(t, f)| success(f) && *t <= t_end).collect();
+    let succ: Vec<_> = r_fin.iter().filter(|(t, f)| success(f) && (*t < t_end || *t == t0)).collect();
     if succ.len() > 1 {
         return Err(fail(tr, "delivery-finalized-twice", format!("the receiver reported a successful delivery {} times: at {:?}", succ.len(), succ.iter().map(|x| x.0).collect::<Vec<_>>())));
     }
